@@ -409,6 +409,60 @@ def _never_none(fi: FuncInfo, hn: ast.AST, v: ast.AST, depth: int = 0) -> bool:
     return False
 
 
+def _record_display(fi: FuncInfo, val: ast.AST) -> ast.AST:
+    """`R(a, b, c=x)` with R a NamedTuple class of the module that the pinned tree does not have, unpacked at once by the caller:
+    the tuple display `(a, b, x)` in field order, class defaults filled in"""
+    if not (isinstance(val, ast.Call) and isinstance(val.func, ast.Name)):
+        return val
+    ci = fi.module.classes.get(val.func.id)
+    if ci is None or not any(ast.unparse(b).split(".")[-1] == "NamedTuple" for b in ci.node.bases):
+        return val
+    known = known_functions().get(fi.module.name) or {}
+    if val.func.id in set(str(known.get("<classes>", "")).split()):
+        return val
+    from .records import _fields_and_defaults
+
+    fields, defaults = _fields_and_defaults(ci.node)
+    if any(isinstance(a_, ast.Starred) for a_ in val.args) or any(k.arg is None for k in val.keywords) or len(val.args) > len(fields):
+        return val
+    vals: dict[str, ast.AST] = dict(zip(fields, val.args))
+    vals.update({k.arg: k.value for k in val.keywords})  # type: ignore[misc]
+    for f in fields:
+        if f not in vals and f in defaults:
+            vals[f] = clone(defaults[f])
+    if set(vals) != set(fields):
+        return val
+    return ast.copy_location(ast.Tuple(elts=[vals[f] for f in fields], ctx=ast.Load()), val)
+
+
+def _dominates(fn: ast.AST, a: ast.stmt, b: ast.stmt) -> bool:
+    """structured dominance: statement a precedes, in the same or an enclosing block, the statement that contains (or is) b.
+    When b is not found in fn (the caller works on a detached copy) the positions decide as before."""
+    def path_to(body: list[ast.stmt], acc: list[tuple[list[ast.stmt], int]]) -> list[tuple[list[ast.stmt], int]] | None:
+        for i, s_ in enumerate(body):
+            here = acc + [(body, i)]
+            if s_ is b:
+                return here
+            if isinstance(s_, (ast.FunctionDef, ast.AsyncFunctionDef, ast.ClassDef)):
+                continue
+            for f in ("body", "orelse", "finalbody"):
+                sub = getattr(s_, f, None)
+                if isinstance(sub, list) and sub and isinstance(sub[0], ast.stmt):
+                    r = path_to(sub, here)
+                    if r is not None:
+                        return r
+            for hd_ in getattr(s_, "handlers", []) or []:
+                r = path_to(hd_.body, here)
+                if r is not None:
+                    return r
+        return None
+
+    p = path_to(getattr(fn, "body", []), [])
+    if p is None:
+        return True
+    return any(a is blk[j] for blk, i in p for j in range(i))
+
+
 def _expand(fi: FuncInfo, caller_names: set[str], st: ast.stmt, select: Callable[[FuncInfo, ast.Call, ast.stmt], bool], follow_if: ast.If | None = None, consumed: list[bool] | None = None) -> list[ast.stmt] | None:
     """`follow_if`: the caller's next statement when it is `if <target> is [not] None: ...` on the single name the call is assigned
     to. It is then threaded into the inlined body - placed right after each former return, reduced to the branch that the
@@ -511,14 +565,47 @@ def _expand(fi: FuncInfo, caller_names: set[str], st: ast.stmt, select: Callable
     # names the caller binds once), IS the caller's local: keep the name and drop the helper's duplicate binding
     same_def: set[str] = set()
     caller_fn = fi.node
+    # ... and under another name: `text = match.group()` in the helper where the caller has `matched_text = match.group()`
+    alias_def: dict[str, str] = {}
+    pmap0 = {p: bound[p] for p in params if isinstance(bound[p], ast.Name)}
+    caller_single: dict[str, ast.Assign] = {}
+    for n in walk_no_nested(caller_fn):
+        if isinstance(n, ast.Assign) and len(n.targets) == 1 and isinstance(n.targets[0], ast.Name) and isinstance(n.value, (ast.Call, ast.Attribute, ast.Subscript)):
+            caller_single.setdefault(n.targets[0].id, n) if n.targets[0].id not in caller_single else caller_single.__setitem__(n.targets[0].id, None)  # type: ignore[arg-type]
     for nm in sorted(helper_locals):
-        if nm not in caller_names:
+        hd = [n for n in walk_no_nested(hn) if isinstance(n, ast.Assign) and len(n.targets) == 1 and isinstance(n.targets[0], ast.Name) and n.targets[0].id == nm]
+        hall = [n for n in walk_no_nested(hn) if isinstance(n, ast.Name) and n.id == nm and isinstance(n.ctx, (ast.Store, ast.Del))]
+        if not (len(hd) == 1 and len(hall) == 1 and hd[0] in hn.body and isinstance(hd[0].value, (ast.Call, ast.Attribute, ast.Subscript))):
+            continue
+        hv = clone(hd[0].value)
+        for x in ast.walk(hv):
+            if isinstance(x, ast.Name) and x.id in pmap0:
+                x.id = pmap0[x.id].id  # type: ignore[union-attr]
+        if any(isinstance(x, ast.Name) and x.id in helper_locals for x in ast.walk(hv)):
+            continue
+        htxt = ast.unparse(hv)
+        for cn, cdn in caller_single.items():
+            if cdn is None or cn == nm or cn in helper_locals:
+                continue
+            if ast.unparse(cdn.value) != htxt:
+                continue
+            if sum(1 for n in walk_no_nested(caller_fn) if isinstance(n, ast.Name) and n.id == cn and isinstance(n.ctx, (ast.Store, ast.Del))) != 1:
+                continue
+            free = {x.id for x in ast.walk(hv) if isinstance(x, ast.Name)}
+            if not all(sum(1 for n in walk_no_nested(caller_fn) if isinstance(n, ast.Name) and n.id == f and isinstance(n.ctx, ast.Store)) <= 1 for f in free):
+                continue
+            if cdn.lineno <= st.lineno and _dominates(caller_fn, cdn, st_orig):
+                alias_def[nm] = cn
+                hn.body.remove(hd[0])
+                break
+    for nm in sorted(helper_locals):
+        if nm not in caller_names or nm in alias_def:
             continue
         hd = [n for n in walk_no_nested(hn) if isinstance(n, ast.Assign) and len(n.targets) == 1 and isinstance(n.targets[0], ast.Name) and n.targets[0].id == nm]
         hall = [n for n in walk_no_nested(hn) if isinstance(n, ast.Name) and n.id == nm and isinstance(n.ctx, (ast.Store, ast.Del))]
         cd = [n for n in walk_no_nested(caller_fn) if isinstance(n, ast.Assign) and len(n.targets) == 1 and isinstance(n.targets[0], ast.Name) and n.targets[0].id == nm]
         call_stores = [n for n in walk_no_nested(caller_fn) if isinstance(n, ast.Name) and n.id == nm and isinstance(n.ctx, (ast.Store, ast.Del))]
-        if len(hd) == 1 and len(hall) == 1 and len(cd) == 1 and len(call_stores) == 1 and hd[0] in hn.body and cd[0].lineno < st.lineno:
+        if len(hd) == 1 and len(hall) == 1 and len(cd) == 1 and len(call_stores) == 1 and hd[0] in hn.body and cd[0].lineno <= st.lineno and _dominates(caller_fn, cd[0], st_orig):
             # compare after binding the helper's parameters to the call's arguments
             pmap = {p: bound[p] for p in params if isinstance(bound[p], ast.Name)}
             hv = clone(hd[0].value)
@@ -561,6 +648,9 @@ def _expand(fi: FuncInfo, caller_names: set[str], st: ast.stmt, select: Callable
             if ynames == tnames:
                 handed_back |= set(tnames) & helper_locals
     for nm in sorted(helper_locals):
+        if nm in alias_def:
+            rename[nm] = alias_def[nm]
+            continue
         if nm in same_def or nm in handed_back:
             continue
         if nm in caller_names:
@@ -616,6 +706,7 @@ def _expand(fi: FuncInfo, caller_names: set[str], st: ast.stmt, select: Callable
     def result(v: ast.AST | None, at: ast.stmt) -> list[ast.stmt]:
         """what `return v` of the helper becomes at this call site"""
         val = v if v is not None else ast.Constant(value=None)
+        val = _record_display(fi, val) if targets and len(targets) == 1 and isinstance(targets[0], ast.Tuple) else val
         res: list[ast.stmt] = []
         if isinstance(st, ast.Return):
             res.append(ast.Return(value=val))
